@@ -528,7 +528,7 @@ def gen_assemble_config(rng, tier):
     cfg = {"flavor": "cli"}
     cfg.update(gen_dataset_config(rng, tier))
     cfg.update({
-        "fix_homozygous": rng.choice([None, 0.51, 0.6, 0.75, 0.9, 0.99, 0.999, 0.9999, 1.0]),
+        "fix_homozygous": rng.choice([None, 0.51, 0.6, 0.75, 0.9, 0.99, 0.999, 0.9999, 1.0, 0.3, 0.45]),
         "mcmc_steps": rng.choice([6, 10, 16]),
         "mcmc_burn": rng.choice([0, 2]),
         "mcmc_chains": rng.choice([1, 2]),
